@@ -19,7 +19,7 @@ shape expectations in Facts.lean):
 import OG.Generated.C19
 
 namespace OG.C19
-open OG.Gen.C19 (RouteFact routes preMuxPrefixes)
+open OG.Gen.C19 (RouteFact routes preMuxPrefixes preMuxPrefixesC)
 
 /-! ## users and privileges -/
 
@@ -267,43 +267,39 @@ deriving DecidableEq, Repr
 
 def startsWith (s pre : String) : Bool := (pre.toList).isPrefixOf s.toList
 
-def endsWith (s suffix : String) : Bool :=
-  let a := s.toList
-  let b := suffix.toList
-  a.length ≥ b.length && a.drop (a.length - b.length) == b
-
 /-- is this Route literal registered by `NewHandler` under `c`? (NewHandler calls the five
 Add…Routes functions, AddLogstreamAPIRoutes only for product type logkeeper; AddFluxAPIRoute
-installs one of two handlers; routes added by other packages are present under `ext`). -/
+installs one of two handlers; routes added by other packages are present under `ext`).
+Only string equalities: `String.toList` is very slow in the kernel. -/
 def routeLive (c : Cfg) (r : RouteFact) : Bool :=
-  if endsWith r.src ":AddLogstreamAPIRoutes" then c.logKeeper
-  else if endsWith r.src ":AddFluxAPIRoute" then
+  if r.external then c.ext && r.cond = ""
+  else if r.group = "AddLogstreamAPIRoutes" then c.logKeeper
+  else if r.group = "AddFluxAPIRoute" then
     (if r.cond = "!FluxEnabled" then !c.flux else if r.cond = "!(!FluxEnabled)" then c.flux else false)
-  else if endsWith r.src ":AddInfluxDBAPIRoutes" || endsWith r.src ":AddPrometheusAPIRoutes"
-       || endsWith r.src ":AddSysAPIRoutes" then r.cond = ""
-  else if startsWith r.src "lib/util/lifted/influx/httpd/" then false
-  else c.ext && r.cond = ""
+  else if r.group = "AddInfluxDBAPIRoutes" || r.group = "AddPrometheusAPIRoutes" || r.group = "AddSysAPIRoutes" then r.cond = ""
+  else false
 
-/-- split at '/', structurally (kernel-reducible, unlike `String.splitOn`). -/
-def splitOnSlash : List Char → List Char → List String
-  | acc, [] => [String.ofList acc.reverse]
+/-- split at '/', structurally. Paths and patterns are handled as `List Char` (the generated
+table carries `patternC`; the driver converts the request path once). -/
+def splitOnSlash : List Char → List Char → List (List Char)
+  | acc, [] => [acc.reverse]
   | acc, c :: rest =>
-    if c = '/' then String.ofList acc.reverse :: splitOnSlash [] rest else splitOnSlash (c :: acc) rest
+    if c = '/' then acc.reverse :: splitOnSlash [] rest else splitOnSlash (c :: acc) rest
 
-def splitPath (s : String) : List String := splitOnSlash [] s.toList
+def splitPath (s : List Char) : List (List Char) := splitOnSlash [] s
 
-def isVar (seg : String) : Bool :=
-  match seg.toList with
-  | '{' :: _ => endsWith seg "}"
+/-- `{name}` -/
+def isVar : List Char → Bool
+  | '{' :: rest => rest.getLast? == some '}'
   | _ => false
 
 /-- gorilla/mux template match: `{x}` matches one non-empty segment. -/
-def matchSegs : List String → List String → Bool
+def matchSegs : List (List Char) → List (List Char) → Bool
   | [], [] => true
-  | p :: ps, s :: ss => (if isVar p then s ≠ "" else p = s) && matchSegs ps ss
+  | p :: ps, s :: ss => (if isVar p then !s.isEmpty else p == s) && matchSegs ps ss
   | _, _ => false
 
-def patternMatches (pattern path : String) : Bool := matchSegs (splitPath pattern) (splitPath path)
+def patternMatches (pattern path : List Char) : Bool := matchSegs (splitPath pattern) (splitPath path)
 
 inductive Target where
   | preMux (i : Nat)             -- i-th arm of ServeHTTP's dispatch chain
@@ -314,22 +310,22 @@ deriving DecidableEq, Repr
 
 /-- first route (registration order) matching path and method; else 405 if some route matched
 the path, else 404. -/
-def muxFind (method path : String) : List RouteFact → Bool → Target
+def muxFind (method : String) (path : List Char) : List RouteFact → Bool → Target
   | [], pathHit => if pathHit then .methodNotAllowed else .notFound
   | r :: rest, pathHit =>
-    if patternMatches r.pattern path then
+    if patternMatches r.patternC path then
       if r.method = method then .route r else muxFind method path rest true
     else muxFind method path rest pathHit
 
 /-- `Handler.ServeHTTP`: the i-th prefix wins if the path starts with it (the first arm,
 /debug/pprof, additionally needs pprof-enabled); otherwise the mux. -/
-def preMuxFind (c : Cfg) (path : String) : List String → Nat → Option Nat
+def preMuxFind (c : Cfg) (path : List Char) : List (List Char) → Nat → Option Nat
   | [], _ => none
   | p :: rest, i =>
-    if startsWith path p && (i ≠ 0 || c.pprof) then some i else preMuxFind c path rest (i + 1)
+    if p.isPrefixOf path && (i ≠ 0 || c.pprof) then some i else preMuxFind c path rest (i + 1)
 
-def dispatch (c : Cfg) (method path : String) : Target :=
-  match preMuxFind c path preMuxPrefixes 0 with
+def dispatch (c : Cfg) (method : String) (path : List Char) : Target :=
+  match preMuxFind c path preMuxPrefixesC 0 with
   | some i => .preMux i
   | none => muxFind method path (routes.filter (routeLive c)) false
 
@@ -372,7 +368,7 @@ itself (Facts.funcLitHandlers_expected). -/
 def plainDecision (r : RouteFact) : Decision :=
   if r.handler = "<funclit>" then .d403 else .pass
 
-def decide (w : World) (c : Cfg) (method path : String) (req : Req) (db : String) (dbExists : Bool) (q : List Stmt) : Decision :=
+def decide (w : World) (c : Cfg) (method : String) (path : List Char) (req : Req) (db : String) (dbExists : Bool) (q : List Stmt) : Decision :=
   match dispatch c method path with
   | .preMux _ => .pass                           -- no wrapper at all
   | .notFound => .d404
